@@ -74,19 +74,22 @@ for i in SESSION:
                          "the finding classes this property owns are reported.")
 EXTRA = {
  "C01": "; TLAPS proofs of the unbounded chunk arithmetic (ChunkProofs.tla); rpc up to 2^63-1 on four filesystems; transient-fault filesystem (raise or right)",
- "C02": "; TLAPS proofs that every slice position lies on the axis for all n, start, stop, step (IndexProofs.tla)",
- "C04": "; declared-but-informational values (FileFormat!Informational) varied; first-point date/time text styles",
+ "C02": "; TLAPS proofs that every slice position lies on the axis for all n, start, stop, step (IndexProofs.tla); selections over up to 1100 request groups from plain / asyncio / deep-stack / thread callers of a fresh interpreter",
+ "C04": "; declared-but-informational values (FileFormat!Informational) varied; first-point date/time text styles; other declared record lengths; interpreters -O/-OO/-X dev, path spellings, calling contexts",
  "C05": "; declared-but-informational values varied; concurrent opens of different products (1 us switch interval)",
- "C06": "; TLAPS proofs (ChunkProofs.tla); size family with chunks across 2^26 and 2^31 bytes (sparse 2.2 GB file); jitter; shared option dict; partial-read sequences",
- "C07": "; filesystem where a missing object is PermissionError",
+ "C06": "; TLAPS proofs (ChunkProofs.tla); size family with chunks across 2^26 and 2^31 bytes (sparse 2.2 GB file); jitter; shared option dict; partial-read sequences; NumPy integer request sizes; the same product opened with different request sizes at once by threads and by forked workers",
+ "C07": "; filesystem where a missing object is PermissionError; CacheAtomic.tla: TLC-checked equivalence of the step-grain open (Cache.tla) with the atomic Open of Alos2.tla through the shared CacheRule.tla",
  "C08": "; index files exchanged between processes with different locale encodings",
  "C09": "; crash at every system-call boundary of the strace-recorded writers with the call sequence validated by TLC (Trace_CacheSys.tla); persisting faults; concurrent default openers with delayed unlink/rename",
- "C10": "; exhaustive BFS of Alos2.tla; concurrent opens",
+ "C10": "; exhaustive BFS of Alos2.tla; concurrent opens; CacheAtomic.tla (step-grain open = atomic Open for one process, TLC-checked)",
  "C11": "; TLAPS proofs (ChunkProofs.tla); size family; transient faults (a failed request is not a read, delivered groups are not requested again); index-opened and copied trees; pointwise selections",
  "C16": "; 800 (6000) seconds x hundredths stamps; transient fault while VOL/LED/summary is fetched; each text field blank on its own; NUL padding",
- "C17": "; text encodings of dates in Calendar.tla with a must-fail greedy decoder; process time zones with and without DST; trees parsed / parsed while indexed / served from the index",
- "C19": "; LockOf (copies share the lock), filesystem with one file object per path (memory:// semantics), two separately opened trees, same line as integer and as block, 12 MB loads with jitter",
- "C20": "; complex fields with one half blank",
+ "C17": "; text encodings of dates in Calendar.tla with a must-fail greedy decoder; process time zones with and without DST; trees parsed / parsed while indexed / served from the index; two lines of one request across midnight / new year (Calendar!Later, Rollover); ambient decimal precision / NumPy error state of the caller",
+ "C19": "; LockOf (copies share the lock), filesystem with one file object per path (memory:// semantics), two separately opened trees, same line as integer and as block, 12 MB loads with jitter; a request stalled for 12-65 s with the lock held; crowds of 4-64 free-running loaders (four-thread model MC_Loads_four)",
+ "C20": "; complex fields with one half blank; whole state vectors blank jointly under every declared count",
+ "C13": "; Hierarchy.tla (the group tree as a state machine): every TLC-exported history replayed on real Group objects and DataTrees; informational summary entries varied; interpreters / path spellings / calling contexts",
+ "C03": "; lines of one request straddling midnight / new year (Calendar!Later); interpreters / path spellings / calling contexts",
+ "C12": "; interpreters -O/-OO/-X dev, path spellings, calling contexts",
 }
 for i, t in EXTRA.items():
     BUILT[i]["tech"] += t
